@@ -357,6 +357,8 @@ class World:
             b = r.choice(cands)
             if M[a]["cyclic"] and len(M[a]["dims"]) < 3:
                 return
+            if self.maxbond(a) + self.maxbond(b) > 12:
+                return          # (keep the bonds, hence the cost and the rounding error, small)
             how = r.choice(["op", "method", "method_inplace"]) if kind != "iadd" else "iop"
             oa, ob = O[a], O[b]
             if kind == "add":
@@ -419,6 +421,8 @@ class World:
             if not cands:
                 return
             b = r.choice(cands)
+            if self.maxbond(A) * self.maxbond(b) > 16:
+                return
             oA, ob = O[A], O[b]
             D = int(np.prod(M[A]["dims"]))
             absA = self.absval(A).reshape(D, D)
@@ -451,6 +455,8 @@ class World:
             sub = self.new_sub_operator(dims, sites)
             if sub is None:
                 return
+            if self.maxbond(sub) * self.maxbond(b) > 16:
+                return
             oS, ob = O[sub], O[b]
             ds = int(np.prod([dims[s] for s in sites]))
             bound = 4 * float(np.max(self.absval(sub), initial=0)) * ds * float(np.max(self.absval(b), initial=0))
@@ -473,7 +479,7 @@ class World:
             dims = M[a]["dims"]
             L = len(dims)
             keep = sorted(r.sample(range(L), r.randint(1, L)))
-            if int(np.prod([dims[k] for k in keep])) > 16:
+            if int(np.prod([dims[k] for k in keep])) > 16 or self.maxbond(a) > 6:
                 return
             oa = O[a]
             rescale = r.random() < 0.6
